@@ -180,3 +180,37 @@ def inline_links(maxlen=6):
                 if s.strip() == s:
                     out.append(s)
     return list(dict.fromkeys(out))
+
+
+# D_inline (DESIGN §4): single paragraphs from at most n atoms (distinct concatenations only)
+INLINE_ATOMS = ["*", "**", "_", "__", "`", "``", "[", "]", "(", ")", "!", "\\", "<", ">", "\"", "&", "&amp;", "a", " ", "\n", "/u"]
+
+
+def d_inline(n=4, atoms=INLINE_ATOMS):
+    seen = set()
+    for k in range(1, n + 1):
+        for t in itertools.product(atoms, repeat=k):
+            s = "".join(t)
+            if s not in seen:
+                seen.add(s)
+                yield s
+
+
+def leaf_edges():
+    """Leaf-block opener/closer shapes x trailing whitespace x leading indentation (closed, seed-independent)."""
+    leaves = ["# a", "# a #", "# a#", "# C#", "## a ##", "## a##", "# a \\#", "#", "# ", "#\ta", "####### a", "a\n===", "a\n---", "a\n= =", "a\nb\n===",
+              "```", "```py", "``` py x", "~~~", "~~~~", "```\nc\n```", "~~~\nc\n~~~", "---", "***", "* * *", "_ _ _", "<div>", "<!-- c -->", "<?x?>",
+              "[r]: /u", "[r]: /u \"t\"", "[r]:\n/u", "    code", "a", "a\\", "1. a", "- a", "> a", "a  \nb", "*a*", "`a`", "[a](/u)"]
+    trail = ["", " ", "  ", "   ", "\t", " \t"]
+    lead = ["", " ", "   "]
+    out = []
+    for l in leaves:
+        for t in trail:
+            for i in lead:
+                lines = l.split("\n")
+                body = "\n".join(i + x for x in lines[:-1] + [lines[-1] + t])
+                out += [body + "\n", body]
+                if len(lines) > 1:
+                    body2 = "\n".join([i + lines[0] + t] + [i + x for x in lines[1:]])
+                    out.append(body2 + "\n")
+    return list(dict.fromkeys(out))
